@@ -444,4 +444,57 @@ example :
 -- C17_unschedule_owner / C17_unregister_host hypotheses
 example : (2 : Nat) < (St.init 3 (fun _ => none)).n ∧ ((St.init 3 (fun _ => none)).svcs 2).pc = .idle := by decide
 
+/-! ### Exclusive registration: partial, with a witness for the known finding -/
+
+/-- **C17 (delete exclusive) — PARTIAL.**  Full strength would be: when `on_delete_request r` removes a
+    node, that node is registered in this service for NO other container.  This is proved only under
+    the extra hypothesis that every path is used by ONE app (instance) only (`Op.respects appOf` for
+    all create requests of the history, `AppInv appOf` initially).  What is missing: identity-group
+    paths are shared between the instances of an application, `presence` is keyed by app, and without
+    the hypothesis the statement is FALSE of the model and of the code (`C17_shared_identity_witness`,
+    known finding `delete-identity-of-other-instance`). -/
+theorem C17_delete_exclusive_partial (appOf : Path → App) (st0 : St) (h0 : Inv st0)
+    (ha0 : AppInv appOf st0) (ops : List Op) (hops : ∀ o ∈ ops, o.presence = true)
+    (hresp : ∀ o ∈ ops, o.respects appOf)
+    (i : Nat) (hi : i < (run st0 ops).n) (p : Path) (nd : Node)
+    (hp : (run st0 ops).zk p = some nd) (hgone : (stepSvc (run st0 ops) i).zk p = none) :
+    ∃ r app rest, ((run st0 ops).svcs i).pc = .dlDelete r app p rest ∧
+      ∀ app' r', presLookup ((run st0 ops).svcs i).pres app' p = some r' → app' = app ∧ r' = r := by
+  obtain ⟨r, app, rest, hpc, hl, _⟩ := C17_delete_scoped st0 h0 ops hops i hi p nd hp hgone
+  refine ⟨r, app, rest, hpc, ?_⟩
+  intro app' r' hl'
+  have ha := (appInv_run ops h0 ha0 hops hresp i hi).2
+  have e1 := ha app p r hl
+  have e2 := ha app' p r' hl'
+  have : app' = app := by rw [← e1, ← e2]
+  subst this
+  rw [hl] at hl'; cases hl'
+  exact ⟨rfl, rfl⟩
+
+/-- Identity path 6 registered by container 1001 of instance 1, then adopted (and re-labelled) by
+    container 2001 of instance 2 on the same client; the clean-up of 1001 ... -/
+def sharedIdentityOps : List Op :=
+  [.start 0 (.create 1001 1 [{ path := 1, parents := [], data := ⟨1, 0⟩ }, { path := 6, parents := [], data := ⟨1, 1⟩ }]),
+   .step 0, .step 0,
+   .start 0 (.create 2001 2 [{ path := 9, parents := [], data := ⟨1, 0⟩ }, { path := 6, parents := [], data := ⟨1, 2⟩ }]),
+   .step 0, .step 0, .step 0, .step 0,
+   .start 0 (.delete 1001 1), .step 0, .step 0, .step 0, .step 0, .step 0]
+
+/-- ... removes the node that is registered for container 2001 (witness of the known finding: the
+    model violates exclusive registration when a path is shared by two apps). -/
+theorem C17_shared_identity_witness :
+    (∀ o ∈ sharedIdentityOps, o.presence = true) ∧
+    ((run (St.init 1 (fun _ => none)) sharedIdentityOps).svcs 0).pc = .dlDelete 1001 1 6 [] ∧
+    presLookup ((run (St.init 1 (fun _ => none)) sharedIdentityOps).svcs 0).pres 2 6 = some 2001 ∧
+    (run (St.init 1 (fun _ => none)) sharedIdentityOps).zk 6 = some ⟨⟨1, 2⟩, some 1⟩ ∧
+    (stepSvc (run (St.init 1 (fun _ => none)) sharedIdentityOps) 0).zk 6 = none := by
+  decide
+
+-- non-vacuity of the extra hypothesis: the demo history uses paths 2 and 4 for app 1 only
+example : ∀ o ∈ demoOps, o.respects (fun _ => 1) := by
+  intro o ho
+  simp only [demoOps, List.mem_cons, List.mem_nil_iff, or_false] at ho
+  rcases ho with rfl | rfl | rfl | rfl | rfl | rfl | rfl | rfl | rfl | rfl | rfl <;>
+    simp [Op.respects, itemA, itemB]
+
 end TmVerif.Presence
